@@ -7,16 +7,17 @@ from niltype import Nil
 from d42 import validate
 from d42.declaration.types import DictSchema
 
-MODULE = "D42.Props.C04"
+MODULE = "D42.Props.C04Carries"
 THEOREMS = ["subst_accepts", "subst_total", "subst_keeps_rest", "subst_given_required",
             "subst_pins_scalar", "subst_pins_bool_int", "subst_pins_float_precision",
-            "subst_accepts_counterexample", "subst_accepts_contains_counterexample"]
+            "subst_accepts_counterexample", "subst_accepts_contains_counterexample",
+            "subst_accepted_carries", "subst_generated_carries", "carries_example", "subst_accepted_carries_counterexample"]
 FILES = ["D42/Model/Data.lean", "D42/Model/Validate.lean", "D42/Model/Subst.lean", "D42/Props/C14.lean", "D42/Props/C12.lean",
-         "D42/Props/C05.lean", "D42/Props/C04.lean"]
+         "D42/Props/C05.lean", "D42/Props/C04.lean", "D42/Props/C01.lean", "D42/Props/C04Carries.lean"]
 
 EVIDENCE = dict(
     level="proof",
-    checker_cmd="lake build D42.Props.C04 d42model && lake env lean <#print axioms audit>",
+    checker_cmd="lake build D42.Props.C04Carries d42model && lake env lean <#print axioms audit>",
     trusted=["Lean kernel; standard axioms", "substitution model tied to the code by the outcome correspondence of this run"],
     rule="plain values (complete, partial dicts at any depth, perturbed) substituted into generated schemas; for each success: "
          "accept-the-value, generated values under lo/hi/rnd draws carry the value, accepted perturbations carry the value, "
@@ -132,7 +133,7 @@ MANIFEST = dict(
               "result-schema correspondence",
     text="Theorems (Props/C05.lean; Props/C04.lean is the index): for a plain value v that S accepts, S % v succeeds "
          "(subst_total) and accepts v (subst_accepts); the result pins the scalar / every listed element / every given key "
-         "(subst_pins_scalar/_list/_dict), makes given keys required (subst_given_required) and keeps schema and "
+         "(subst_pins_scalar and, at every nesting depth, subst_accepted_carries / subst_generated_carries in Props/C04Carries.lean: whatever the result accepts or generates carries the value — scalars equal, lists element-wise, dicts on every key given — for every schema, the contains form included), makes given keys required (subst_given_required) and keeps schema and "
          "optionality of untouched keys (subst_keeps_rest). Tie: structural comparison of the resulting schema between "
          "model and code; search: validate / generate / perturb on S % v on the real code.",
     note="Partial: hypotheses NoNaN (K6), NoContains (K12: contains-form picks the first substitutable window), "
